@@ -26,6 +26,13 @@ var shapes = []string{
 	"[[I]{cC}]", "{c{cI}c[F]}", "{cnctcb1}", "[{cnct}{cIct}]", "{cs1cnct}", "{2{cs1}}", "{1n1t1n}", "s4",
 }
 
+// near misses of the reserved forms (the decoder's lookahead must replay them): the link form /
+// bytes form with a sibling entry, with a non-string payload, with another or a second inner key
+var nearReserved = []string{
+	`{"/"{"bytes"s1}cI}`, `{"/"s1cn}`, `{"/"{"bytes"I}}`, `{"/"I}`, `{"/"{1s1}}`, `{"/"{"bytes"s1cn}}`,
+	`[{"/"{"bytes"s1}cI}t]`, `{"/"{"bytes"s1}"0"s1}`, `{"/"{"bytes"{}}cn}`, `{"/"{"bytes"s1}cncn}`,
+}
+
 var intBoundaries = []int64{0, 1, -1, 7, -42, 100, 65535, 1 << 31, -(1 << 31), 1 << 53, -(1 << 53), math.MaxInt64, math.MinInt64, 999999999999}
 var floats = []float64{1.5, -0.25, 1e100, 5e-324, 1e21, 1e-7, 123456.789, math.MaxFloat64, -1e-9, 0.1, 1.0, 0.0, -2.0, 1e15, 123456789.0}
 var cids = []string{
@@ -45,7 +52,14 @@ func (c *ctx) shape(s string) *refval.V {
 	// expand I, F, C into decisions before handing the rest to gen
 	var custom []*refval.V
 	out := []byte(s)
+	quoted := false
 	for i := range out {
+		if out[i] == '"' {
+			quoted = !quoted
+		}
+		if quoted {
+			continue
+		}
 		switch out[i] {
 		case 'I':
 			custom = append(custom, refval.MkInt(intBoundaries[nd.Choose("I", len(intBoundaries))]))
@@ -111,6 +125,9 @@ func placeholders(s string) []bool {
 	var r []bool
 	for i := 0; i < len(s); i++ {
 		switch s[i] {
+		case '"':
+			for i++; s[i] != '"'; i++ {
+			}
 		case 'I', 'F', 'C':
 			r = append(r, true)
 		case 'n', 't', 'i', 'u', 'f', 'l', 'L':
@@ -230,6 +247,49 @@ func HRoundTrip() {
 		n = fnode.New(ins)
 	}
 	roundTrip(v, n, c.kfFloat, true)
+	nd.Reach("end")
+}
+
+// HNearReserved: maps that begin like a reserved form but are ordinary maps round-trip like any other.
+func HNearReserved() {
+	c := &ctx{}
+	v := c.shape(nearReserved[nd.Choose("shape", nd.Param("S", len(nearReserved)))])
+	ins := gen.Permute("", v)
+	var n datamodel.Node
+	if nd.Choose("impl", 2) == 0 {
+		n = gen.MustBuild(ins)
+	} else {
+		n = fnode.New(ins)
+	}
+	roundTrip(v, n, c.kfFloat, true)
+	nd.Reach("end")
+}
+
+// poison: inputs on which decoding fails, is refused by the target, or (two of them, into the Any
+// builder) succeeds after a replayed lookahead, while the decoder is
+// looking ahead into a possible reserved form.
+var poison = []string{`{"/":`, `{"/":1}`, `{"/":{"bytes":`, `{"/":{"bytes":"AA"`, `{"/":"x"`, `{"/":{"bytes":1}}`, `[{"/":"`, `{"/":{"bytes":"AA"}`, `{"/"`}
+
+// HAfterFailedDecode: a decode that fails part-way (possibly into a target that refuses the
+// kind) leaves nothing behind: what follows round-trips as on a fresh start.
+func HAfterFailedDecode() {
+	for i := 0; i < nd.Param("FAILS", 1); i++ {
+		in := poison[nd.Choose("poison", len(poison))]
+		var nb datamodel.NodeBuilder = basicnode.Prototype.Any.NewBuilder()
+		strTarget := nd.Choose("target", 2) == 1
+		if strTarget {
+			nb = basicnode.Prototype.String.NewBuilder() // refuses maps and lists
+		}
+		var err error
+		nd.NoPanic("failing decode", func() { err = dagjson.Decode(nb, bytes.NewReader([]byte(in))) })
+		if strTarget {
+			nd.Assert(err != nil, "a map or list offered to a string builder is an error")
+		}
+	}
+	c := &ctx{}
+	ms := []string{"{cIcs1}", "[Is1]", "s2", `{"/"{"bytes"s1}cI}`, "{1n1t}"}
+	v := c.shape(ms[nd.Choose("shape", len(ms))])
+	roundTrip(v, gen.MustBuild(v), c.kfFloat, true)
 	nd.Reach("end")
 }
 
